@@ -226,14 +226,226 @@ def run_labels(ck):
     ck.add_samples([show_labels(c) for c in cases if len(c["raw"]) >= 2][:2])
 
 
+# ------------------------------------------------------------------------------------------ histories
+H_LISTS = ["M_hist", "V_new", "K_retry", "K_type"]
+TNAME = {0: "TBoth", 1: "TLog", 2: "TMetric"}
+
+
+def hcase_to_coq(c):
+    fpid = {}
+
+    def fid(fp):
+        return fpid.setdefault(str(fp), len(fpid) + 1)
+
+    acts, obs = [], []
+    for st, ob in zip(c["steps"], c["obs"]):
+        if st["k"] == "reset":
+            acts.append("CacheReset")
+            obs.append("HReset")
+            continue
+        ss = []
+        for s_ in st["streams"]:
+            es = coq_list(["{| e_ts := %s; e_type := %s |}" % (coq_u64(e["ts"]), TNAME[e["t"]]) for e in s_["entries"]])
+            ss.append("{| s_fp := %d; s_entries := %s |}" % (fid(s_["fp"]), es))
+        acts.append("Push %s %s %s" % (coq_list(ss), "true" if st["ts_ok"] else "false", "true" if st["spl_ok"] else "false"))
+        rows, spl = [], []
+        for cl in ob["calls"] or []:
+            if cl["table"] == "time_series":
+                rows += ["(%s, %d, %s)" % (r[0], fid(r[1]), r[2]) for r in cl["rows"] or []]
+            elif cl["table"] == "samples":
+                spl += ["(%d, day_of %s, %s)" % (fid(r[0]), coq_u64(r[1]), r[2]) for r in cl["rows"] or []]
+        obs.append("HPush %s %s %s" % ("true" if 200 <= ob["status"] < 300 else "false", coq_list(rows), coq_list(spl)))
+    return "{| hc_id := %d; hc_actions := %s; hc_obs := %s |}" % (c["id"], coq_list(acts), coq_list(obs))
+
+
+def eval_hcases(ck, name, cases):
+    txt = ("From Coq Require Import List ZArith Bool Uint63.\n"
+           "From Qryn Require Import model.Labels model.SeriesIndex.\n"
+           "Import ListNotations.\nOpen Scope Z_scope.\n"
+           "Definition cases : list hcase := [\n  " + ";\n  ".join(hcase_to_coq(c) for c in cases) + "].\n"
+           "Definition R := Eval vm_compute in hreport cases.\nPrint R.\n")
+    rc, out = ck.coq_eval(name, txt)
+    if rc != 0:
+        return None, out
+    return parse_report(out, H_LISTS), out
+
+
+def show_hist(c):
+    out = []
+    for st, ob in zip(c["steps"], c["obs"]):
+        if st["k"] == "reset":
+            out.append("cache reset")
+            continue
+        out.append({"push": [{"labels": s_["ls"], "fingerprint": s_["fp"], "entries": s_["entries"]} for s_ in st["streams"]],
+                    "scripted": {"series insert": "ok" if st["ts_ok"] else "FAILS", "samples insert": "ok" if st["spl_ok"] else "FAILS"},
+                    "client retry of the previous body": bool(st.get("retry")),
+                    "status": ob["status"],
+                    "inserts": [{"table": cl["table"], "ok": cl["ok"], "rows": cl["rows"]} for cl in ob["calls"] or []]})
+    return out
+
+
+def run_hist(ck):
+    n = ck.n(250, 5000)
+    cases = []
+    corpus = os.path.join(CORPUS, "hist.jsonl")
+    if os.path.exists(corpus):
+        outp = os.path.join(ck.work, "hist_corpus.jsonl")
+        rc, out = ck.go_run("seriesid", ["--mode", "hist", "--cases", corpus, "--out", outp])
+        if rc != 0:
+            ck.obligation("harness seriesid --mode hist ran on the corpus", False, out[-1500:])
+            return
+        cs = [json.loads(l) for l in open(outp)]
+        for i, c in enumerate(cs):
+            c["id"] = 1000000 + i
+            c["class"] = "corpus:" + c.get("class", "")
+        cases += cs
+    outp = os.path.join(ck.work, "hist.jsonl")
+    rc, out = ck.go_run("seriesid", ["--mode", "hist", "--seed", ck.seed, "--n", n, "--out", outp])
+    if rc != 0:
+        ck.obligation("harness seriesid --mode hist ran", False, out[-1500:])
+        return
+    cases += [json.loads(l) for l in open(outp)]
+    byid = {c["id"]: c for c in cases}
+    size = lambda c: (len(c["steps"]), sum(len(s_["entries"]) for st in c["steps"] for s_ in st.get("streams") or []))
+    panics = [c for c in cases if c.get("panic")]
+    for c in sorted(panics, key=size)[:1]:
+        ck.violation({"property": "C04", "part": "hist", "kind": "panic while replaying a history", "case": c,
+                      "replay": "seriesid --mode hist --cases <file with this case>"})
+    ok = [c for c in cases if not c.get("panic")]
+    res = {k: [] for k in H_LISTS}
+    shard = 500
+    for k in range(0, len(ok), shard):
+        r, out = eval_hcases(ck, "C04_hist_%d" % (k // shard), ok[k:k + shard])
+        if r is None:
+            ck.obligation("history cases evaluated inside Coq", False, out[-1500:])
+            return
+        for key in H_LISTS:
+            res[key] += r[key]
+    ck.obligation("correspondence: model SeriesIndex.run_obs = implementation (status, series rows sent, samples sent) on %d histories" % len(ok),
+                  not res["M_hist"] and not panics, "mismatching case ids: %s" % res["M_hist"][:10])
+    ck.obligation("spec: every acknowledged sample has an inserted series row for its day (and type) in every history the guards cover",
+                  not res["V_new"], "case ids: %s" % res["V_new"][:10])
+    if res["V_new"]:
+        c = min((byid[i] for i in res["V_new"]), key=size)
+        ck.violation({"property": "C04", "part": "hist", "kind": "acknowledged sample without series row (no failed series insert before it, stable sample types)",
+                      "case": c, "readable": show_hist(c), "explanation": "hv_new (model/SeriesIndex.v) on the observed inserts",
+                      "replay": "seriesid --mode hist --cases <file with this case>"})
+    elif res["M_hist"]:
+        c = min((byid[i] for i in res["M_hist"]), key=size)
+        ck.violation({"property": "C04", "part": "hist", "kind": "model/implementation disagree; spec oracle still accepts",
+                      "case": c, "readable": show_hist(c)}, no_input=True)
+    kf = ck.known_findings()
+    for key, fid_, what in (("K_retry", "retry-after-failed-series-insert", "push after a failed series insert (no cache reset in between) is acknowledged without series row"),
+                            ("K_type", "series-type-row-missing", "label set seen with a new sample type gets no series row of that type")):
+        if not res[key]:
+            continue
+        c = min((byid[i] for i in res[key]), key=size)
+        if fid_ in kf:
+            ck.report_known(fid_, "%d of %d generated histories: %s; smallest: %s" % (len(res[key]), len(ok), what, json.dumps(show_hist(c))[:700]))
+        else:
+            ck.violation({"property": "C04", "part": "hist", "kind": what, "case": c, "readable": show_hist(c),
+                          "replay": "seriesid --mode hist --cases <file with this case>"})
+    distinct = set()
+    hist = {}
+    for c in cases:
+        hist[c["class"]] = hist.get(c["class"], 0) + 1
+        if sum(1 for st in c["steps"] if st["k"] == "push") >= 2:
+            distinct.add(json.dumps(c["steps"]))
+    ck.coverage["evaluations"] += len(cases)
+    ck.coverage["distinct_nontrivial"] += len(distinct)
+    ck.coverage["rule"] += ("hist: histories of 1..8 steps (push of 1..3 streams over 4 label sets and 2 days incl. instants at midnight, client retry of the previous body, cache reset) "
+                            "with scripted outcomes of the series and the samples insert, run through the in-process writer router with one shared cache; non-trivial = at least 2 pushes, distinct by content. ")
+    ck.extra["hist_input_classes"] = hist
+    ck.extra["hist_known"] = {"retry": len(res["K_retry"]), "type": len(res["K_type"])}
+    ck.add_samples([show_hist(c) for c in cases if len(c["steps"]) >= 2][:1])
+
+
+# ------------------------------------------------------------------------------------------ dates
+def run_dates(ck):
+    n = ck.n(400, 400)
+    cases = []
+    corpus = os.path.join(CORPUS, "dates.jsonl")
+    if os.path.exists(corpus):
+        outp = os.path.join(ck.work, "dates_corpus.jsonl")
+        rc, out = ck.go_run("seriesid", ["--mode", "dates", "--cases", corpus, "--out", outp])
+        if rc != 0:
+            ck.obligation("harness seriesid --mode dates ran on the corpus", False, out[-1500:])
+            return
+        cs = [json.loads(l) for l in open(outp)]
+        for i, c in enumerate(cs):
+            c["id"] = 1000000 + i
+            c["class"] = "corpus:" + c.get("class", "")
+        cases += cs
+    outp = os.path.join(ck.work, "dates.jsonl")
+    seeds = [ck.seed] if ck.quick() else [ck.seed + k for k in range(20)]
+    for sd in seeds:
+        rc, out = ck.go_run("seriesid", ["--mode", "dates", "--seed", sd, "--n", n, "--out", outp])
+        if rc != 0:
+            ck.obligation("harness seriesid --mode dates ran", False, out[-1500:])
+            return
+        cs = [json.loads(l) for l in open(outp)]
+        for c in cs:
+            c["id"] += len(cases) if sd != seeds[0] else 0
+        cases += cs
+    for i, c in enumerate(cases):
+        c["id"] = i
+    bad = [c for c in cases if c.get("panic") or c["status"] != 204 or c["date"] < 0]
+    ck.obligation("every dated push was accepted and produced a series row", not bad, json.dumps(bad[:2]))
+    ok = [c for c in cases if c not in bad]
+    txt = ("From Coq Require Import List ZArith Bool Uint63.\n"
+           "From Qryn Require Import model.Labels model.Dates.\n"
+           "Import ListNotations.\nOpen Scope Z_scope.\n"
+           "Definition cases : list dcase := [\n  " +
+           ";\n  ".join("{| dc_id := %d; dc_off := %s; dc_ts := %s; dc_date := %d |}" % (c["id"], coq_Z(c["offset"]), coq_u64(c["ts"]), c["date"]) for c in ok) +
+           "].\nDefinition R := Eval vm_compute in dreport cases.\nPrint R.\n")
+    rc, out = ck.coq_eval("C04_dates", txt)
+    res = parse_report(out, ["M_date", "V_date"]) if rc == 0 else None
+    if res is None:
+        ck.obligation("date cases evaluated inside Coq", False, out[-1500:])
+        return
+    byid = {c["id"]: c for c in ok}
+    ck.obligation("correspondence: model Dates.series_day = date column value reaching the client on %d (zone, instant) pairs" % len(ok),
+                  not res["M_date"], "mismatching case ids: %s" % res["M_date"][:10])
+    ck.obligation("spec: the stored day is the sample's UTC day, inside the reader's date window, in every process zone", not res["V_date"],
+                  "case ids: %s" % res["V_date"][:10])
+
+    def readable(c):
+        import datetime
+        t = datetime.datetime.fromtimestamp(c["ts"] // 10**9, datetime.timezone.utc)
+        return {"process zone offset (s)": c["offset"], "sample": t.isoformat(), "sample UTC day": c["ts"] // 10**9 // 86400,
+                "stored date (days)": c["date"], "reader lower bound for from=sample (days)": (c["ts"] // 10**9 - 1800) // 86400}
+    if res["V_date"]:
+        c = min((byid[i] for i in res["V_date"]), key=lambda c: abs(c["offset"]))
+        ck.violation({"property": "C04", "part": "dates", "kind": "series row stored under a day the reader does not search",
+                      "case": c, "readable": readable(c), "explanation": "date_violation (model/Dates.v)",
+                      "replay": "seriesid --mode dates --cases <file with this case>"})
+    elif res["M_date"]:
+        c = byid[res["M_date"][0]]
+        ck.violation({"property": "C04", "part": "dates", "kind": "model/implementation disagree; spec oracle still accepts", "case": c,
+                      "readable": readable(c)}, no_input=True)
+    hist = {}
+    for c in cases:
+        hist[c["class"]] = hist.get(c["class"], 0) + 1
+    ck.coverage["evaluations"] += len(cases)
+    ck.coverage["distinct_nontrivial"] += len(set((c["offset"], c["ts"]) for c in cases if c["offset"] != 0))
+    ck.coverage["rule"] += ("dates: 32 process zones (-12h..+14h whole hours and five :30/:45 zones) x 12 instants (UTC midnight +-1 s, local midnight +-1 s / +-30 min, noon, random); "
+                            "non-trivial = non-UTC zone, distinct (zone, instant). ")
+    ck.extra["dates_input_classes"] = hist
+    ck.add_samples([readable(c) for c in cases if c["offset"] < 0][:1])
+
+
 def run(ck):
     ck.trusted += [
         "C04: city.CH64 on label strings is an oracle (per-case table from the exported function); Hash128to64 and CH64 over the 24 accumulator bytes are transcribed and checked by the correspondence; FingerPrintType = CityHash (default) only",
         "C04: strconv.IsPrint on runes > 0xFF is an oracle table; ClickHouse's JSON functions are assumed to accept exactly RFC 8259 (LabelJson.v) on these documents",
         "C04: fingerprint injectivity is conditional on collision-freeness hypotheses that are tested, not proved",
+        "C04 histories: the (day, fingerprint) cache key CH64(day || fp) is modelled as the pair itself (no collisions); fastcache has no false positives; a cache reset is modelled by installing an empty cache (the ticker's Reset is unreachable); requests stay below the 1 MiB mid-request flush; single node (the cache is disabled in cluster mode)",
+        "C04 dates: ch-go's ToDate and Go's time.Truncate are transcribed (checked by the correspondence over 32 zones); the reader's own zone (upper date bound) belongs to C13",
     ]
     ck.coq_props()
     if not ck.go_build("seriesid"):
         ck.obligation("harness seriesid builds against the repo (hook zz_verif_export_c04.go present)", False, ck.build_out[-1500:])
         return
     run_labels(ck)
+    run_hist(ck)
+    run_dates(ck)
